@@ -259,6 +259,34 @@ class Check:
             return None, se
         return out, ""
 
+    def clock_overlay(self):
+        """A go build -overlay file that replaces /repo/runtime/runtimecontextmanager.go by a copy, regenerated from
+        the current source (or from the seeded version when VERIF_OVERLAY replaces that file), in which now() reads
+        rt.VerifClock when it is set.  /repo is not touched.  -> (overlay path, None) or (None, reason)."""
+        target = os.path.join(REPO, "runtime", "runtimecontextmanager.go")
+        base = {}
+        env_ov = os.environ.get("VERIF_OVERLAY")
+        if env_ov:
+            base = dict(json.load(open(env_ov)).get("Replace", {}))
+        # lib/seedtest.py maps /repo/<f> to the worktree's file
+        srcpath = base.get(target) or base.get("/repo/runtime/runtimecontextmanager.go") or target
+        src = open(srcpath).read()
+        m = re.search(r"func now\(\) uint64 \{\n(.*?)\n\}", src, re.S)
+        if not m or "time.Now()" not in m.group(1):
+            return None, "func now() of runtime/runtimecontextmanager.go no longer has the shape the clock overlay rewrites"
+        body = "\tif VerifClock != nil {\n\t\treturn VerifClock()\n\t}\n" + m.group(1)
+        gen = src[:m.start(1)] + body + src[m.end(1):] + "\n// VerifClock replaces the wall clock (verification harness only; build overlay).\nvar VerifClock func() uint64\n"
+        d = os.path.join(WORK, "clock")
+        os.makedirs(d, exist_ok=True)
+        h = hashlib.md5((gen + json.dumps(base, sort_keys=True)).encode()).hexdigest()[:10]
+        gpath = os.path.join(d, "runtimecontextmanager_%s.go" % h)
+        open(gpath, "w").write(gen)
+        repl = dict(base)
+        repl[target] = gpath
+        opath = os.path.join(d, "overlay_%s.json" % h)
+        json.dump({"Replace": repl}, open(opath, "w"))
+        return opath, None
+
     # ------------------------------------------------------------------ Coq side
     def coq_make(self, targets=None):
         """Full .vo build (no -vos) of the given targets' dependency cones (default: everything).
